@@ -227,3 +227,22 @@ impl<K: crate::elem::Elem> hashbrown::Equivalent<K> for KeyRef {
         eq_answer(self.0 == key.id())
     }
 }
+
+/// An UNLAWFUL borrowed form: equivalent to a key by id alone, but its hash also depends on `class`
+/// (which lands in bits above the table's position bits), so requests that are "the same key" carry
+/// different hashes. Used to ask multi-key lookups for one entry under several hashes.
+#[derive(Clone, Copy, Debug)]
+pub struct LooseRef {
+    pub id: u32,
+    pub class: u32,
+}
+impl Hash for LooseRef {
+    fn hash<H: Hasher>(&self, h: &mut H) {
+        h.write_u64(self.id as u64 | ((self.class as u64) << 32));
+    }
+}
+impl<K: crate::elem::Elem> hashbrown::Equivalent<K> for LooseRef {
+    fn equivalent(&self, key: &K) -> bool {
+        self.id == key.id()
+    }
+}
